@@ -15,7 +15,9 @@ Python STIX2 DataStore API.
 from abc import ABCMeta, abstractmethod
 import uuid
 
-from stix2.datastore.filters import Filter, FilterSet
+from stix2.datastore.filters import (
+    Filter, FilterSet, apply_common_filters,
+)
 from stix2.utils import _timestamp_sort_key, deduplicate
 
 
@@ -617,6 +619,10 @@ class CompositeDataSource(DataSource):
         # objects with the same 'id' and 'modified' values)
         if len(results) > 0:
             results = deduplicate(results)
+
+        # filters attached to the composite apply to this answer too
+        if self.filters:
+            results = list(apply_common_filters(results, self.filters))
 
         return results
 
